@@ -94,6 +94,11 @@ fn unguarded_panic(c: &mut Ctx, pm: &str) {
 
 /// Random schedule for a stream of `len` bytes whose fixed header is `hdr` bytes long.
 pub fn rand_schedule(r: &mut Rng, len: usize, hdr: usize) -> Vec<Step> {
+    rand_schedule_styled(r, len, hdr, false)
+}
+
+/// `block`: force the block-sized delivery style (cuts at multiples of a power of two).
+pub fn rand_schedule_styled(r: &mut Rng, len: usize, hdr: usize, block: bool) -> Vec<Step> {
     let mut s = Vec::new();
     if len == 0 {
         if r.bool() {
@@ -101,7 +106,7 @@ pub fn rand_schedule(r: &mut Rng, len: usize, hdr: usize) -> Vec<Step> {
         }
         return s;
     }
-    let style = if len > 300 && r.chance(1, 4) { 6 } else { r.below(6) };
+    let style = if len > 300 && (block || r.chance(1, 4)) { 6 } else { r.below(6) };
     let pend_p = match r.below(4) {
         0 => 0,
         1 => 1,
